@@ -19,6 +19,7 @@ func init() {
 	verifRegister("VerifC01_H3_Stream", VerifC01_H3_Stream)
 	verifRegister("VerifC02_H2_StreamStep", VerifC02_H2_StreamStep)
 	verifRegister("VerifC02_H3_Stream", VerifC02_H3_Stream)
+	verifRegister("VerifC02_H4_Schedules", VerifC02_H4_Schedules)
 }
 
 // isExactFrame is the specification of "exactly one RTCM3 frame", written
@@ -182,3 +183,47 @@ func c01Stream(checkLossless bool) {
 
 func VerifC01_H3_Stream() { c01Stream(false) }
 func VerifC02_H3_Stream() { c01Stream(true) }
+
+// C02, the schedule clause: a producer goroutine feeds the input channel
+// byte by byte and closes it, the stream handler runs in its own goroutine,
+// the harness drains the output; input and output channel capacities 0, 1, 2;
+// the lazy, round-robin and one-preemption schedules.  The delivered bytes
+// must be the input whatever the capacities and the interleaving.
+func VerifC02_H4_Schedules() {
+	verifOwnPanics()
+	mode := verifParam("schedule", 0, 2)
+	verifSchedule(mode, 1)
+	maxN := 4
+	if verifTier() > 0 {
+		maxN = 6
+	}
+	n := verifParam("n", 0, maxN)
+	inCap := verifParam("in-capacity", 0, 2)
+	outCap := verifParam("out-capacity", 0, 2)
+	data := verifBytes("in", n)
+	in := make(chan byte, inCap)
+	out := make(chan Message, outCap)
+	verifWitness("reached")
+	go func() {
+		for _, b := range data {
+			in <- b
+		}
+		close(in)
+	}()
+	h := New(verifTimeOf(vfTuesdayNoon), slog.LevelInfo)
+	go h.HandleMessages(in, out)
+	var cat []byte
+	empty := false
+	for m := range out { // ends only when the output is closed
+		if len(m.RawData) == 0 {
+			empty = true
+		}
+		cat = append(cat, m.RawData...)
+	}
+	verifQuiesce()
+	verifWitness("returned")
+	verifAssert("no-empty-message", !empty)
+	verifAssert("concatenation-equals-input", verifBytesEq(cat, data))
+	verifAssert("output-closed-exactly-once", verifChanCloseCount(out) == 1)
+	verifAssert("goroutines-finished", verifLiveGoroutines() == 0)
+}
